@@ -353,15 +353,15 @@ def enumerate_small(max_rank=2, max_depth=2, max_bound=3, max_step=6, min_depth=
 
 
 @st.composite
-def layout_pair(draw, tier="quick", base=1):
+def layout_pair(draw, tier="quick", base=1, bounds_may_differ=False):
     """Two layouts with equal tile bounds (the precondition of a copy between them and of
     largest_common_contiguous_block). Families:
       shared-prefix: both one-to-one by construction; they share the k fastest strides, the rest is nested differently
       perturbed:     b is a copy of an arbitrary layout a with some steps changed
       dynamic:       a from dynamic_layout, b a copy with some static steps changed
     Returns {"fam", "a", "b", "start"} where start is the step of the fastest stride (1 = elements, >1 = bytes)."""
-    fam = draw(st.sampled_from(["shared-prefix", "shared-prefix", "shared-prefix", "perturbed", "dynamic"]))
-    if fam == "shared-prefix":
+    fam = draw(st.sampled_from(["shared-prefix", "shared-prefix", "shared-prefix", "perturbed", "dynamic"] + (["bounds-differ"] if bounds_may_differ else [])))
+    if fam in ("shared-prefix", "bounds-differ"):
         tb = draw(tile_bounds_st(tier))
         pos = [(d, k) for d, bs in enumerate(tb) for k in range(len(bs))]
         order = list(draw(st.permutations(pos)))
@@ -385,6 +385,13 @@ def layout_pair(draw, tier="quick", base=1):
         nest(list(draw(st.permutations(order[k:]))), ext_k, sb)
         mk = lambda s: [[[s[(d, kk)], b] for kk, b in enumerate(bs)] for d, bs in enumerate(tb)]  # noqa: E731
         a, b = mk(sa), mk(sb)
+        if fam == "bounds-differ":
+            # same depth structure and steps, but 1..2 bounds of b changed (largest_common_contiguous_block compares strides itself;
+            # equal tile bounds are a precondition of copies, not of that function)
+            for _ in range(draw(st.integers(1, 2))):
+                d, kk = draw(st.sampled_from(pos))
+                old_b = b[d][kk][1]
+                b[d][kk][1] = draw(st.sampled_from([x for x in (1, 2, 3, 4, 6, 8) if x != old_b]))
     elif fam == "perturbed":
         a = draw(arbitrary_layout(tier))["dims"]
         if base != 1:
